@@ -188,7 +188,7 @@ for h, fns, txt in [
     ("cursor_into_reversed_write", ["Cursor::into_reversed", "<Reverse<Cursor> as WriteWords>::write"], "write after in-place reversal lands at the same logical index; free space unchanged"),
     ("vec_backend", ["<Vec as WriteWords>::write", "<Vec as ReadWords<Stack>>::read", "<Vec as Seek>::seek", "<Vec as Pos>::pos"], "Vec is a LIFO; seek truncates; beyond end refused"),
 ]:
-    kani("backends::" + h, ["C17", "C20"], fns=[B + f for f in fns], text=txt)
+    kani("backends::" + h, ["C17", "C20"] + (["C07"] if h in ("cursor_seek", "vec_backend") else []), fns=[B + f for f in fns], text=txt)
 kani("backends::smallvec_backend", ["C17"], kind="bounded", bound="SmallVec<[u8;2]> with <= 3 words", fns=[B + "SmallVec impls"])
 kani("backends::adapters", ["C17"], kind="bounded", bound="3-word iterator, 2 callback writes", fns=[B + "FallibleIteratorReadWords", B + "InfallibleCallbackWriteWords", B + "FallibleCallbackWriteWords"])
 kani("backends::cursor_buf_mut_then_read", ["C20"], fns=[B + "Cursor::buf_mut", B + "<Cursor as ReadWords<Stack>>::read"],
